@@ -45,6 +45,10 @@ type Cache struct {
 
 	autoRefresh bool
 	watch       *watch
+	// rescan is set if the last refresh could not list some Spec directory,
+	// for instance because we ran out of file descriptors. No event tells
+	// us when that changes, so the next query refreshes again.
+	rescan bool
 }
 
 // WithAutoRefresh returns an option to control automatic Cache refresh.
@@ -146,6 +150,7 @@ func (c *Cache) refresh() error {
 		devices    = map[string]*Device{}
 		conflicts  = map[string]struct{}{}
 		specErrors = map[string][]error{}
+		rescan     = false
 	)
 
 	// collect errors per spec file path and once globally
@@ -181,6 +186,9 @@ func (c *Cache) refresh() error {
 	_ = scanSpecDirs(c.specDirs, func(path string, priority int, spec *Spec, err error) error {
 		path = filepath.Clean(path)
 		if err != nil {
+			if errors.As(err, &dirScanError{}) {
+				rescan = true
+			}
 			collectError(fmt.Errorf("failed to load CDI Spec %w", err), path)
 			return nil
 		}
@@ -209,6 +217,7 @@ func (c *Cache) refresh() error {
 	c.specs = specs
 	c.devices = devices
 	c.errors = specErrors
+	c.rescan = rescan
 
 	errs := []error{}
 	for _, specErrs := range specErrors {
@@ -222,7 +231,9 @@ func (c *Cache) refreshIfRequired(force bool) (bool, error) {
 	// We need to refresh if
 	// - it's forced by an explicit call to Refresh() in manual mode
 	// - a missing Spec dir appears (added to watch) in auto-refresh mode
-	if force || (c.autoRefresh && c.watch.update(c.dirErrors)) {
+	// - the last refresh could not list a Spec dir in auto-refresh mode
+	update := c.autoRefresh && c.watch.update(c.dirErrors)
+	if force || update || (c.autoRefresh && c.rescan) {
 		return true, c.refresh()
 	}
 	return false, nil
